@@ -58,7 +58,7 @@ pub struct Violation {
 
 const MAX_VIOL_PER_SIG: usize = 4;
 const MAX_SAMPLES: usize = 8;
-const MAX_PENDING: usize = 400_000;
+const MAX_PENDING: usize = 1_500_000;
 
 #[derive(Default, Clone)]
 pub struct Report {
@@ -130,6 +130,9 @@ impl Report {
         }
     }
     pub fn guard(&mut self, name: &str, observed: u64, required: u64) {
+        // Miri runs are small sharded samples of the same workloads: a guard only demands
+        // that the thing was observed at all there
+        let required = if cfg!(miri) { required.min(1) } else { required };
         let e = self.guards.entry(name.to_string()).or_insert((0, required));
         e.0 += observed;
         e.1 = required;
@@ -241,10 +244,16 @@ where
     F: Fn(usize, &mut Report) + Sync,
 {
     let threads = ctx.threads.max(1).min(n.max(1));
+    // `--opt shards=N --opt shard=k`: this process only takes every N-th work item (Miri runs
+    // are split over processes this way, one interpreter being single-threaded)
+    let shards = ctx.opt_u64("shards", 1).max(1) as usize;
+    let shard = ctx.opt_u64("shard", 0) as usize;
     if threads <= 1 || cfg!(miri) {
         let mut r = Report::default();
         for i in 0..n {
-            f(i, &mut r);
+            if i % shards == shard {
+                f(i, &mut r);
+            }
         }
         return r;
     }
@@ -259,6 +268,9 @@ where
                         let i = next.fetch_add(1, Ordering::Relaxed);
                         if i >= n {
                             break;
+                        }
+                        if i % shards != shard {
+                            continue;
                         }
                         f(i, &mut r);
                     }
